@@ -827,6 +827,13 @@ func (s *sharedEntryAttributes) GetHighestPrecedence(result LeafVariantSlice, on
 func (s *sharedEntryAttributes) getHighestPrecedenceLeafValue(ctx context.Context) (*LeafEntry, error) {
 	// an entry that is deleted on the device has no value any longer, even though its running value is still loaded
 	if s.shouldDelete() {
+		// ... but a leaf with a default takes its default value then
+		if s.leafVariants.GetByOwner(DefaultsIntentName) == nil {
+			s.tryLoadingDefault(ctx, s.Path())
+		}
+		if d := s.leafVariants.GetByOwner(DefaultsIntentName); d != nil {
+			return d, nil
+		}
 		return nil, fmt.Errorf("error no value present for %s", s.Path())
 	}
 	for _, x := range []string{"existing", "default"} {
